@@ -73,7 +73,7 @@ class Renamer:
         if isinstance(v, IntV):
             if not v.lin.d and v.cond is None:
                 return v
-            return IntV(self.lin(v.lin), self.cond(v.cond))
+            return IntV(self.lin(v.lin), self.cond(v.cond), v.rng)
         if self.origin is not None:
             e = self.origin.get(id(v))
             if e is not None and e[0] is v:
@@ -107,7 +107,7 @@ class Renamer:
 def fp(v):
     """Hashable fingerprint of a (canonically named) value."""
     if isinstance(v, IntV):
-        return ("i", fp_lin(v.lin), fp_cond(v.cond))
+        return ("i", fp_lin(v.lin), fp_cond(v.cond), v.rng)
     if isinstance(v, StructV):
         return ("s", v.name, tuple(fp(f) for f in v.fields))
     if isinstance(v, EnumV):
@@ -255,11 +255,31 @@ def canonicalize(st, args, read_path, value_refs, value_atoms):
                 break
         if ok:
             cfacts.add(rn.lin(f))
-    cst = State(cstore, catoms, cfacts, set())
+    cdefs = {}
+    if st.defs:
+        # definitions of visible atoms; their operand atoms become visible too
+        work = [x for x in list(am) if x in st.defs]
+        done_d = set()
+        while work:
+            x = work.pop()
+            if x in done_d:
+                continue
+            done_d.add(x)
+            op, la, lb = st.defs[x]
+            for l in (la, lb):
+                for y in l.d:
+                    if y not in am:
+                        rn.a(y)
+                        catoms[rn.am[y]] = st.aiv(y)
+                    if y in st.defs and y not in done_d:
+                        work.append(y)
+            cdefs[rn.am[x]] = (op, rn.lin(la), rn.lin(lb))
+    cst = State(cstore, catoms, cfacts, set(), cdefs)
     key = (tuple(fp(a) for a in cargs),
            tuple((r, fp(v)) for r, v in cstore.items()),
            tuple(sorted((c, iv, atom_range(c)) for c, iv in catoms.items())),
-           frozenset(fp_lin(f) for f in cfacts))
+           frozenset(fp_lin(f) for f in cfacts),
+           tuple(sorted((c, d[0], fp_lin(d[1]), fp_lin(d[2])) for c, d in cdefs.items())))
     return key, cst, cargs, rn
 
 
@@ -291,4 +311,5 @@ def instantiate(out, rv, rn, site):
     for c, x in back.am.items():
         if c not in inv_a:
             created.add(x)
-    return back.val(rv), State(store, atoms, facts, created)
+    defs = {back.a(c): (d[0], back.lin(d[1]), back.lin(d[2])) for c, d in out.defs.items()}
+    return back.val(rv), State(store, atoms, facts, created, defs)
